@@ -369,9 +369,11 @@ class LogicalType(type):  # noqa
                     # like NormalFloat = AllOf(Float, Not(AbnormalFloat))('3.3')
                     value = context.transformer(value, con)
                 except Exception as e:
-                    context.handle_error(e)
+                    context.handle_error(
+                        e if isinstance(e, exc.ParseError) else exc.ParseError(origin_exc=e)
+                    )
                     break
-            return value
+            # fall through to context.raise_error(): a collected failure must not be returned as success
 
         elif cls.combinator == "|":
             # Union type
